@@ -369,6 +369,8 @@ def op_line(o):
         return "ctx8 %s %d %s" % (hexs(o[1]), o[2], hexs(o[3]))
     if n == "isty":
         return "isty %d %s" % (o[1], ty_str(o[2]))
+    if n == "encv":
+        return "encv %d %d" % (o[1], o[2])
     raise ValueError(n)
 
 
@@ -408,6 +410,8 @@ def op_parse(toks):
         return ("ctx8", unhex(toks[1]), int(toks[2]), unhex(toks[3]))
     if n == "isty":
         return ("isty", int(toks[1]), ty_parse(toks[2]))
+    if n == "encv":
+        return ("encv", int(toks[1]), int(toks[2]))
     raise ValueError(n)
 
 
@@ -473,6 +477,8 @@ def op_coq(o):
         return "OCtx8 %s %d %s" % (coq_list(o[1]), o[2], coq_list(o[3]))
     if n == "isty":
         return "OIsType %d %s" % (o[1], ty_coq(o[2]))
+    if n == "encv":
+        return "OEncV %d" % o[1]
     raise ValueError(n)
 
 
@@ -651,6 +657,11 @@ def ref_run(ops):
             if a:
                 e = a
                 extra = [1 if a[0] == o[2] else 0]
+        elif n == "encv":
+            a = get(o[1])
+            if a:
+                e = a
+                extra = [len(compact_enc(a[1]))]
         else:
             raise ValueError(n)
         pool.append(e)
@@ -673,7 +684,7 @@ def split_log(r, ops):
         code = r[p]
         p += 1
         extra = []
-        if code == 0 and o[0] in ("pad", "cmp", "isty"):
+        if code == 0 and o[0] in ("pad", "cmp", "isty", "encv"):
             if p >= len(r):
                 return None
             extra = [r[p]]
